@@ -203,6 +203,36 @@ MethodSet(P, R, f, pre, sname, mname) ==
 Parent(P, R, f, n) == LET b == P[f].services[n].base
                       IN  IF b.w = "" THEN Nil ELSE Get(P, R, f, "service", b.pre, b.name)
 
+(* all methods of a service: its own and those of the chain of `extends`, every base resolved in the file that *)
+(* declares the extends (the chain ends where a base's file is not registered)                                *)
+RECURSIVE AllMethods(_, _, _, _)
+AllMethods(P, R, s, fuel) ==
+  IF s = Nil \/ fuel = 0 THEN {}
+  ELSE {[f |-> s.f, i |-> s.i, j |-> j] : j \in DOMAIN P[s.f].services[s.i].methods}
+       \cup AllMethods(P, R, Parent(P, R, s.f, s.i), fuel - 1)
+MethodName(P, m) == P[m.f].services[m.i].methods[m.j].name
+
+(* struct-likes a struct-like includes through its field types (also inside containers), transitively; each     *)
+(* reference resolved in the file that writes it.  The statement does not say whether typedef'd names, unions   *)
+(* and exceptions are followed: follow = FALSE is the least, follow = TRUE the most an answer may contain.       *)
+RECURSIVE Leaves(_)
+Leaves(t) == IF t.args = <<>> THEN {t} ELSE UNION {Leaves(t.args[i]) : i \in DOMAIN t.args}
+RECURSIVE Tgt(_, _, _, _, _, _)
+Tgt(P, R, f, t, follow, fuel) ==
+  IF t.base = "" THEN {}
+  ELSE LET hits == {x \in {<<Get(P, R, f, k, t.pre, t.base), k>> : k \in (IF follow THEN StructKinds ELSE {"struct"})}
+                       : x[1] # Nil}
+           td == Get(P, R, f, "typedef", t.pre, t.base)
+       IN  {<<x[1].f, x[2], x[1].i>> : x \in hits}
+           \cup (IF follow /\ fuel > 0 /\ td # Nil
+                 THEN UNION {Tgt(P, R, td.f, lf, TRUE, fuel - 1) : lf \in Leaves(P[td.f].typedefs[td.i].type)} ELSE {})
+Refs(P, R, d, follow) ==
+  UNION {UNION {Tgt(P, R, d[1], lf, follow, 4) : lf \in Leaves(fl.type)} : fl \in Range(Defs(P[d[1]], d[2])[d[3]].fields)}
+RECURSIVE Closure(_, _, _, _, _)
+Closure(P, R, S, follow, fuel) ==
+  CHOOSE r \in {IF N = S \/ fuel = 0 THEN S ELSE Closure(P, R, N, follow, fuel - 1)
+                  : N \in {S \cup UNION {Refs(P, R, d, follow) : d \in S}}} : TRUE
+
 FieldById(fields, id) == LET S == {i \in DOMAIN fields : FieldId(fields, i) = id}
                          IN  IF S = {} THEN 0 ELSE MinOf(S)
 FieldByName(fields, name) == PosOf(fields, name)
